@@ -420,11 +420,13 @@ def padding_problems(tables, padding):
     return P
 
 
-def mask_head(b, flags=False, locfmt=False):
+def mask_head(b, flags=False, locfmt=False, stamps=False):
     if len(b) < 54:
         return b
     b = bytearray(b)
     b[8:12] = b"\0\0\0\0"
+    if stamps:
+        b[20:36] = b"\0" * 16
     if flags:
         b[16:18] = struct.pack(">H", struct.unpack(">H", b[16:18])[0] | 0x0800)
     if locfmt:
@@ -432,7 +434,7 @@ def mask_head(b, flags=False, locfmt=False):
     return bytes(b)
 
 
-def compare_flavours(ts, to, flavor):
+def compare_flavours(ts, to, flavor, mask_stamps=False):
     """ts: tables of the sfnt save, to: tables decoded from the woff / woff2 save -> [(kind, detail)]"""
     out = []
     a, b = set(ts), set(to)
@@ -444,8 +446,8 @@ def compare_flavours(ts, to, flavor):
     for tag in sorted(a & b):
         x, y = ts[tag], to[tag]
         if tag == "head":
-            x = mask_head(x, flags=w2, locfmt=w2 and "glyf" in ts)
-            y = mask_head(y, flags=w2, locfmt=w2 and "glyf" in ts)
+            x = mask_head(x, flags=w2, locfmt=w2 and "glyf" in ts, stamps=w2 and mask_stamps)
+            y = mask_head(y, flags=w2, locfmt=w2 and "glyf" in ts, stamps=w2 and mask_stamps)
             if x != y:
                 d = [i for i in range(min(len(x), len(y))) if x[i] != y[i]]
                 out.append(("head", "head differs at byte offsets %s (beyond the allowed fields)" % d[:8]))
@@ -645,6 +647,19 @@ def run_font_case(case, acc):
     cache = {}
     decomp = case.get("decompile", "all")
     derived = bool(case.get("recalc")) and decomp == "all"
+    # exclusion by construction (known finding): the WOFF2 writer always recompiles head, which rewrites
+    # created/modified values outside 1970..2106 (head.decompile "regards them as unix timestamps"), so a font
+    # carrying such values and saved with head *not* decompiled differs between sfnt and woff2 in those bytes
+    stamps_rewritten = False
+    if decomp != "all":
+        try:
+            h = sfntref.parse(B).fonts[max(num, 0)].tables.get("head", b"")
+            if len(h) >= 36:
+                stamps_rewritten = any(not 0x7C259DC0 <= v <= 0xFFFFFFFF for v in struct.unpack(">QQ", h[20:36]))
+        except (sfntref.ParseError, IndexError):
+            pass
+        if stamps_rewritten:
+            acc.exclude("head-timestamps-out-of-range-rewritten-by-woff2-writer (known finding)")
     if "gen" in src:
         if src["gen"].get("excluded_degenerate_components"):
             acc.exclude("component-with-single-point-bbox (known finding)", src["gen"]["excluded_degenerate_components"])
@@ -686,7 +701,7 @@ def run_font_case(case, acc):
         ts = outs[None].fonts[0].tables
         for flavor in ("woff", "woff2"):
             if flavor in outs:
-                for kind, detail in compare_flavours(ts, outs[flavor].fonts[0].tables, flavor):
+                for kind, detail in compare_flavours(ts, outs[flavor].fonts[0].tables, flavor, mask_stamps=stamps_rewritten):
                     if kind == "glyf-unreadable":
                         acc.exclude("glyf-not-readable-by-reference")
                         continue
@@ -875,7 +890,7 @@ def font_cases(fid, seed, tier):
     e = corpus.entry(fid)
     rnd = random.Random(seed)
     glyf = "glyf" in e["tables"]
-    n = 2 if e["size"] < 60000 else 1
+    n = 2 if e["size"] < 60000 and seed % 3 == 0 else 1
     if tier == "thorough":
         n = 24 if e["size"] < 60000 else 6
     cases = []
